@@ -267,8 +267,39 @@ def rule_notify_identity(ctx):
         raise Inconclusive("Nucleo::new: cannot resolve what %s receives as notify (%s)" % (what, show(r)[:80]))
 
 
+def rule_cancel_writers(ctx):
+    """A run that a tick reported as `running` ends in exactly two ways: it completes (and reads should_notify), or it
+    is cancelled -- and then leaves WITHOUT notifying, which is only sound because whoever raises `canceled` takes the
+    run over: the cancelling phase of tick_inner blocks on the worker lock and starts the next run itself; restart is
+    followed by such a tick (state Cleared); Drop ends everything.  Any other function that stores `true` into
+    `canceled` aborts a promised run with nobody left to notify (and nobody to publish its results: C19)."""
+    facts = ctx.facts
+    allowed = {"Nucleo::<T>::tick_inner": "cancelling phase of tick (blocks, then spawns the next run)",
+               "Nucleo::<T>::restart": "followed by a cancelling tick (State::Cleared / Init)",
+               "<Nucleo<T> as std::ops::Drop>::drop": "the matcher is going away"}
+    n = 0
+    for b in facts.bodies_of("nucleo"):
+        fn = fn_of(b)
+        for bi, t in fn.calls(lambda t: atomic_op(t) in ("store", "swap", "fetch_or", "compare_exchange")):
+            if classify(fn, fn.expr_of_operand(t["args"][0])) != "canceled":
+                continue
+            v = fn.const_of_operand(t["args"][1]) if len(t["args"]) > 1 else None
+            if v in (0, False):
+                continue          # clearing the flag (done under the worker lock: C12.stream-switch)
+            n += 1
+            root = fn.b.get("root", fn.path) if fn.b.get("kind") == "Closure" else fn.path
+            if root in allowed:
+                ctx.ok(site(fn, bi), "`canceled` raised by %s: %s" % (root.split("::")[-1], allowed[root]))
+            else:
+                ctx.violation("%s|canceled.store|writer" % root, site(fn, bi),
+                              "`canceled` is raised by %s, which is neither the cancelling phase of a tick nor restart nor Drop: the run a previous tick reported as running "
+                              "leaves through its was_canceled exit without notifying, and no tick is committed to start the next run or to publish a result" % root)
+    ctx.floor("places that raise `canceled`", n, 3)
+
+
 def rules(ctx):
     ctx.run_rule("C13.notify-identity", rule_notify_identity)
+    ctx.run_rule("C13.cancel-writers", rule_cancel_writers)
     ctx.run_rule("C13.injector-notify", rule_injector_notify)
     ctx.run_rule("C13.run-exit", rule_run_exit)
     ctx.run_rule("C13.arm-under-lock", rule_arm_under_lock)
